@@ -24,6 +24,10 @@ import time
 from .core import DEFAULT_ROOT, VERIF
 
 
+# whole-tree behaviour-preserving transformations (tools/benign_rename.py, benign_transform.py)
+WHOLE_TREE = ("rename-locals", "invert-if", "add-logging", "pass-stmts")
+
+
 def _load_mutants():
     from . import mutants
 
@@ -67,6 +71,14 @@ def apply_edit(root, m):
         )
         if p.returncode != 0:
             return f"rename transformation failed: {p.stderr[-200:]}"
+        return None
+    if m.get("transform") in ("invert-if", "add-logging", "pass-stmts"):
+        p = subprocess.run(
+            [sys.executable, os.path.join(VERIF, "tools", "benign_transform.py"), root, m["transform"], root],
+            capture_output=True, text=True,
+        )
+        if p.returncode != 0:
+            return f"{m['transform']} transformation failed: {p.stderr[-200:]}"
         return None
     if "patch" in m:
         p = subprocess.run(
@@ -189,7 +201,8 @@ def run_for_property(prop, rep=None):
     current tree.  Appends the outcome to the evidence file.  Returns 0, or 2 if a
     fault is not detected / a refactor is not silent (checker broken, never VIOLATION)."""
     ms = [m for m in _load_mutants() + _seeded() if m["prop"] == prop]
-    ms.append({"id": f"{prop}.b-rename-all-locals", "prop": prop, "kind": "benign", "transform": "rename-locals"})
+    for tr in WHOLE_TREE:
+        ms.append({"id": f"{prop}.b-{tr}", "prop": prop, "kind": "benign", "transform": tr})
     clean_fires = rep is not None and any(r.violations or r.error for r in rep.rules)
     t0 = time.time()
     if clean_fires:
@@ -266,8 +279,8 @@ def main(args):
             i += 1
     ms = _load_mutants() + _seeded()
     ms += [
-        {"id": f"C{i:02d}.b-rename-all-locals", "prop": f"C{i:02d}", "kind": "benign", "transform": "rename-locals"}
-        for i in range(1, 21)
+        {"id": f"C{i:02d}.b-{tr}", "prop": f"C{i:02d}", "kind": "benign", "transform": tr}
+        for i in range(1, 21) for tr in WHOLE_TREE
     ]
     if props:
         ms = [m for m in ms if m["prop"] in props]
